@@ -7,6 +7,7 @@ THEOREMS = {
         "extract_regular_only", "extract_no_overwrite", "extract_confined",
         "frames_authentic", "frames_tamper_rejected", "wrong_key_rejected", "symAead_free",
         "eof_check_contract", "eof_check_err_first_unsound", "frames_authentic_any_reader", "zero_length_frame_rejected", "manifest_decode_total_input",
+        "archive_load_no_write_before_failure",
         "verify_before_write", "fragment_mutation_rejected", "manifest_edit_safe", "count_edit_consistent_rejected", "preflight_is_per_graph", "preflight_ids_unique", "extracted_collection_verified",
         "staging_promote_atomic", "unpack_staged_no_partial",
         "unpack_plain_partial_output_old", "unpack_enc_direct_partial_output", "unpack_plain_fixed",
@@ -111,8 +112,12 @@ CLAUSES = {
         "verify_before_write, load_batch_implies / load_no_batch_of_fail (c20_core clause a); Tie.load_order ties the statement order of Load; the fake "
         "database's write-attempt log must be empty on every rejected input (monitor)",
     "before any node or relationship is written (archive load)":
-        "tie only: Load(ArchiveReader) = unpack into a private temp directory (removed on failure) then the directory load; the composition is not a Lean "
-        "definition; frames_* + extracted_collection_verified + the directory clauses cover the parts, the empty-log oracle covers the whole",
+        "archive_load_no_write_before_failure on the Lean composition loadArchive (envelope reader readFramesVia -> tar stream of the chunks -> extraction and "
+        "collection validation into the private temp directory -> directory load of the unpacked collection): a failure of ANY stage leaves the trace without "
+        "a batch; success => the result IS the directory load of the unpacked collection (verify_before_write applies verbatim) and, under the AEAD hypotheses "
+        "[Aead.Free, no forgery, contract-abiding probe], the accepted stream is exactly the written one; [abstract: tar parser `untar`, directory view of the "
+        "temp dir, JSON value parser; the real reader is lazy, the composition is its outcome]. Tie: every `arc...` case - `err` must come with an empty write "
+        "log, an accepted archive load must show the write count of the case's directory load (monitor state)",
     "no partial output left in the destination: Unpack (staged, forced)":
         "staging_promote_atomic (every intermediate state: destination old / absent between the two renames / complete and validated; failure => initial "
         "state) + unpack_staged_no_partial, for every validator and frame outcome; extracted_collection_verified [hyp: manifest validates] (accept => every "
@@ -250,5 +255,5 @@ MANIFEST = {
             "run, valid UTF-8 names, unix paths, prefix-reading JSON parser, unchanged input directory during one Load. The manifest is not authenticated: "
             "a consistently re-written collection is a different valid input. Searched only: byte-level mutations of archives / manifests / fragments "
             "(exhaustive on small dumps in the thorough tier), tar / codec / JSON parsing, malformed key files, self-consistent manifest edits (graph must "
-            "equal the original), the archive-load composition, invalid UTF-8 names. Load / unpack models are tied on observables, path and frame models by line diff.",
+            "equal the original), invalid UTF-8 names; the archive load is proved on the Lean composition loadArchive (tar parser and directory view abstract). Load / unpack models are tied on observables, path and frame models by line diff.",
 }
